@@ -312,3 +312,29 @@ func ZZC16Valid(script string) {
 	}
 	zzvrt.Reach("c16-valid-end")
 }
+
+// ZZVariableUses / ZZFnCalls expose the harness's own tree walk to the lsp harness.
+func ZZVariableUses(p parser.Program) []*parser.Variable {
+	w := &zzWalker{}
+	w.program(p)
+	var out []*parser.Variable
+	for _, u := range w.uses {
+		out = append(out, u.v)
+	}
+	return out
+}
+
+func ZZFnCalls(p parser.Program) []*parser.FnCall {
+	var out []*parser.FnCall
+	for _, d := range p.Vars {
+		if d.Origin != nil && d.Origin.Caller != nil {
+			out = append(out, d.Origin)
+		}
+	}
+	for _, st := range p.Statements {
+		if f, ok := st.(*parser.FnCall); ok && f != nil && f.Caller != nil {
+			out = append(out, f)
+		}
+	}
+	return out
+}
